@@ -352,3 +352,20 @@ def fx_viewcursor(fx):
     linear.guard_on_cursor(c2, fx, "viewfx::Chunk::bad_carve")
     return (n >= 4 and _fires(c, "B::bad_alloc") and not _fires(c, "A::ok_alloc")
             and _fires(c2, "Chunk::bad_carve") and not _fires(c2, "Chunk::ok_carve"))
+
+
+def fx_locksplit(fx):
+    from rules import sync
+    c = _ctx()
+    n = 0
+    for nm in ("ok_ensure", "bad_ensure"):
+        n += sync.lock_split(c, Fn(fx.raw("locksplit::Lazy::" + nm)))
+    return n >= 1 and _fires(c, "Lazy::bad_ensure") and not _fires(c, "Lazy::ok_ensure")
+
+
+def fx_clear(fx):
+    from rules import parallel
+    c1, c2 = _ctx(), _ctx()
+    n1 = parallel.clear_completeness(c1, fx, "src/lib.rs", "locksplit::Slots")
+    n2 = parallel.clear_completeness(c2, fx, "src/lib.rs", "locksplit::BadSlots")
+    return n1 == 2 and not c1.violations and n2 == 2 and len(c2.violations) == 1
